@@ -466,6 +466,18 @@ func FaultGrid(d *fw.Driver, res *fw.Result, seed int64, thorough bool, prop str
 	return nil
 }
 
+// MidFrameOutage: the two grid points C05 rests on besides its own outage scenarios — a loss noticed in the middle of
+// a server-to-client frame (FIN and RST), with calls issued while the client is between connections: they must fail
+// fast or be served after the redial, and the client must heal.
+func MidFrameOutage(d *fw.Driver, res *fw.Result, seed int64) error {
+	for i, kind := range []string{"fin", "rst"} {
+		if err := faultOne(d, res, seed+int64(i), kind, "mid", "s2c", 1, false, "C05"); err != nil {
+			return err
+		}
+	}
+	return nil
+}
+
 func faultOne(d *fw.Driver, res *fw.Result, seed int64, kind, pos, dir string, frame int, double bool, prop string) error {
 	t0 := time.Now()
 	lap := func(what string) {
